@@ -84,6 +84,18 @@ theorem C07_readback (xs : List XRow) (hne : ∀ x ∈ xs, x.pairs ≠ []) :
 
 theorem C07_readback_empty : readXmap? [] = some [] := rfl
 
+/-- what the unrepaired trailing-trim loop did (F11): the conflicting part of a segment consisting
+    only of an unpaired label beyond the other segment's range was popped completely and the next
+    `positions[-1]` raised IndexError — reachable by joining a first-pass record whose first segment
+    ends on an unpaired label with the alignment of its unaligned rest -/
+theorem C07_unrepaired_trim_counterexample :
+    (trimEndUnguarded ⟨⟨11, 110000⟩, ⟨3, 20000⟩, 0, 0⟩ [APos.uref ⟨13, 150000⟩]).toOption = none ∧
+    (trimEnd ⟨⟨11, 110000⟩, ⟨3, 20000⟩, 0, 0⟩ [APos.uref ⟨13, 150000⟩]).toOption = some [] := by
+  decide +kernel
+
+/-- after the repair the trailing trim is total -/
+theorem C07_trim_total (e : Pr) (xs : List APos) : ∃ ys, trimEnd e xs = .ok ys := ⟨_, rfl⟩
+
 /-- non-vacuity of the parameter hypothesis: the defaults -/
 example : GoodParams defaultParams := ⟨by decide, by decide, by decide, by decide⟩
 
